@@ -48,7 +48,7 @@ theorem no_effect_after_terminator (cfg : Cfg) (t : Test) (ph : Phase) (d : Int)
     ∀ (pre : List Stmt) (res : Result) (hf : Bool),
       runStmts cfg t ph d res hf (pre ++ s :: post) = runStmts cfg t ph d res hf (pre ++ [s])
   | [], res, hf => by
-    cases hx : cfg.exceptions <;> cases s <;> simp_all [runStmts, Stmt.terminates]
+    cases hx : cfg.exceptions <;> cases s <;> simp_all [runStmts, Stmt.terminates, outcome_fails]
   | x :: pre, res, hf => by
     have ih := no_effect_after_terminator cfg t ph d s post hs pre
     cases hx : cfg.exceptions <;> cases x <;> simp [runStmts, hx, ih]
@@ -237,17 +237,49 @@ theorem failure_location (cfg : Cfg) (t : Test) (s : Stmt) (r : FailRec) (h : s.
   · subst h; simp
   · obtain ⟨_, rfl⟩ := h; simp
   · obtain ⟨_, rfl⟩ := h; simp
+  · obtain ⟨_, rfl⟩ := h; rfl
+
+/-- the documented counting rule (every check one, a passing CHECK_COMPARE none) is what C03's model
+    of the check macros counts, statement by statement -/
+theorem checkCount_eq_c03 (s : Stmt) : s.checkCount = s.c03Counted := by
+  cases s <;> simp [Stmt.checkCount, Stmt.c03Counted, Stmt.c03Outcome, outcome_counted] <;> rfl
+
+theorem testChecks_eq_c03 (cfg : Cfg) (t : Test) : testChecks cfg t = c03ChecksOfTest cfg t := by
+  simp only [testChecks, c03ChecksOfTest, checksOf]
+  congr 1
+  apply List.map_congr_left
+  intro ph _
+  congr 1
+  apply List.map_congr_left
+  intro s _
+  exact checkCount_eq_c03 s
+
+/-- **summary_checks_are_c03_counts**: the "checks" figure of a repetition is the sum, over the tests
+    that run and the statements that execute, of the counts property C03's model assigns to each
+    check macro (`Asserts.assert_family_counts_one`, `compare_pass_counts_zero`, …). -/
+theorem summary_checks_are_c03_counts (cfg : Cfg) (plugins : List Plugin) (ts : List Test) :
+    (expectedCounts cfg plugins ts).checkCount = ((running cfg ts).map (c03ChecksOfTest cfg)).sum := by
+  simp only [expectedCounts]
+  congr 1
+  apply List.map_congr_left
+  intro t _
+  exact testChecks_eq_c03 cfg t
 
 /-- **summary_counts_true**: every repetition prints one summary, and it carries the true counts
     (tests, run, checks, ignored, filtered out, failures) — for every verbosity, colour setting and
-    stream of clock readings. -/
+    stream of clock readings; the check count is the sum of C03's per-statement counts. -/
 theorem summary_counts_true (cfg : Cfg) (plugins : List Plugin) (ts : List Test) (n : Nat)
     (hr : cfg.rethrow = false) :
     ∃ o, runAllTests cfg plugins ts n 0 = .ok o ∧
       (summariesOf o.evs).map Prod.fst = List.replicate n (expectedCounts cfg plugins ts) ∧
-      o.reps = List.replicate n (expectedCounts cfg plugins ts) := by
+      o.reps = List.replicate n (expectedCounts cfg plugins ts) ∧
+      (∀ r ∈ o.reps, r.checkCount = ((running cfg ts).map (c03ChecksOfTest cfg)).sum) := by
   obtain ⟨o, ho, oo⟩ := run_outcome_top cfg plugins ts n hr
-  exact ⟨o, ho, oo.summaries, oo.reps⟩
+  refine ⟨o, ho, oo.summaries, oo.reps, ?_⟩
+  rw [oo.reps]
+  intro r hrm
+  rw [(List.mem_replicate.mp hrm).2]
+  exact summary_checks_are_c03_counts cfg plugins ts
 
 /-- **printed_verdict_is_the_returned_verdict**: the condition `printTestsEnded` uses to choose between
     "Errors (" and "OK (" and the condition the runner's return value is computed from
@@ -469,7 +501,7 @@ theorem exit_test_semantics (cfg : Cfg) (t : Test) (ph : Phase) (d : Int) (res :
   have hnf : ∀ x ∈ pre, Stmt.checkFailure cfg t x = none := by
     intro x hx
     have := hpre x hx
-    cases x <;> simp [Stmt.terminates] at this <;> rfl
+    cases x <;> simp [Stmt.terminates] at this <;> first | rfl | simp [Stmt.checkFailure, this]
   have hcf : checkFailures cfg t (pre ++ s :: post) = [] := by
     simp only [checkFailures, hex, List.filterMap_append, List.filterMap_eq_nil_iff]
     rw [List.append_eq_nil_iff]
@@ -480,8 +512,8 @@ theorem exit_test_semantics (cfg : Cfg) (t : Test) (ph : Phase) (d : Int) (res :
   · rw [runStmts_failures, hcf]
   · rw [runStmts_res, hcf]; simp
   · rw [runStmts_res, hex]
-    simp only [checksOf, List.filter_append]
-    rcases hs with rfl | rfl <;> simp [Stmt.isCheck]
+    simp only [checksOf, List.map_append, List.sum_append]
+    rcases hs with rfl | rfl <;> simp [Stmt.checkCount]
   · rw [runStmts_hasFailed, hcf]; simp
 
 /-- **exit_in_setup_skips_body**: a `TEST_EXIT` in setup means setup did not complete: the body is not
@@ -681,6 +713,17 @@ example :
 example :
     let inds := List.replicate 51 "."
     (progressToks inds 0).length = 52 ∧ (progressToks inds 0)[50]? = some "\n" ∧ (progressToks inds 0)[51]? = some "." := by
+  decide
+
+/-- check kinds: a zero-length MEMCMP counts one and passes whatever the buffers hold, a passing
+    CHECK_COMPARE counts none, a failing STRCMP_EQUAL counts one and ends the body: 2 checks, marks 1 2 -/
+example :
+    (runAllTests (exCfg true) []
+      [{ exTest with setup := [], teardown := [],
+                     body := [.check .memcmp0 false ⟨"f.cpp", 11⟩ "m", .mark 1, .check .compare true ⟨"f.cpp", 12⟩ "c", .mark 2,
+                              .check .strcmp false ⟨"f.cpp", 13⟩ "s", .mark 3] }] 1 0).toOption.map
+      (fun o => (marksIn o.evs, o.reps.map (·.checkCount), (failuresOf o.evs).map (·.line)))
+    = some ([(.body, 1), (.body, 2)], [2], [13]) := by
   decide
 
 end Runner
